@@ -33,8 +33,15 @@ let build (tree : int) (segs : RZ.range) : RZ.range =
       let above = (match e with Incl v -> RZ.strictly_higher_than v | Excl v -> RZ.higher_than v | Unb -> RZ.empty) in
       RZ.complement (RZ.union below above)
   in
-  if tree mod 3 = 2 then List.fold_right (fun s acc -> RZ.union (one s) acc) segs RZ.empty
-  else List.fold_left (fun acc s -> RZ.union acc (one s)) RZ.empty segs
+  let acc =
+    if tree mod 3 = 2 then List.fold_right (fun s acc -> RZ.union (one s) acc) segs RZ.empty
+    else List.fold_left (fun acc s -> RZ.union acc (one s)) RZ.empty segs in
+  (* the finishing operation of harness/src/ranges.rs::build *)
+  match (tree / 3) mod 4 with
+  | 1 -> RZ.union acc acc
+  | 2 -> RZ.complement (RZ.complement acc)
+  | 3 -> RZ.intersection acc acc
+  | _ -> acc
 
 let probes k = List.init (2 * k + 1) (fun i -> 5 * (i + 1))
 let mask (r : RZ.range) k : int =
